@@ -21,6 +21,10 @@ Record xcontract (step : list N -> dres) (X : xcoder) (maxSeq : nat) : Prop := {
           exists k o n, nsteps step k s = Some (o, n) /\ step (skipn n s) = DErr e
 }.
 
+(** the only transcoder exceptions a reader operation may raise: the error of the first ill-formed sequence, or
+    Trans_BadSrcSeq when the input ends inside a character *)
+Definition errOK (st : dstatus) (e : xerr) : Prop := st = Bad e \/ (e = E_Trans_BadSrcSeq /\ st = Truncated).
+
 (** the bytes the reader has not decoded yet *)
 Definition pending (r : reader) : list N := rcur r ++ concat (strm r).
 
